@@ -15,7 +15,9 @@ CHECKS = {
                 "denoting the same map (C06_over_engine). Tied to /repo by driving the real server over TCP with generated request sequences under "
                 "several segmentations and pipelining modes (reply bytes and final store compared with the model and with an independent "
                 "map oracle), by running the real client against a scripted server (expected, error, other, doubled, truncated, missing and "
-                "malformed replies) and against the real server, each compared with the model.",
+                "malformed replies) and against the real server, each compared with the model; and by recording the system calls the "
+                "real server issues for a connection and comparing them, call by call and byte by byte, with the trace of the engine "
+                "script of its commands (the tie of the composition with the engine model).",
         "design_ref": "DESIGN.md section 8, C06",
         "note": "The handler model runs over a map; C01 links the real engine to it. Segment boundaries over loopback are encouraged, "
                 "not guaranteed; the deterministic segmentation tie is C08's scripted stream. tokio/TCP are modelled, not verified.",
